@@ -61,7 +61,7 @@ def adt_base(tys):
 
 
 class Activation:
-    __slots__ = ("fid", "fn", "body", "block", "ret_dest", "ret_target", "visits", "title", "subst")
+    __slots__ = ("fid", "fn", "body", "block", "ret_dest", "ret_target", "visits", "cvisits", "title", "subst")
 
     def __init__(self, fid, fn, body, block, ret_dest, ret_target, title=None):
         self.fid = fid
@@ -71,12 +71,14 @@ class Activation:
         self.ret_dest = ret_dest
         self.ret_target = ret_target
         self.visits = {}
+        self.cvisits = {}
         self.title = title
         self.subst = {}
 
     def copy(self):
         a = Activation(self.fid, self.fn, self.body, self.block, self.ret_dest, self.ret_target, self.title)
         a.visits = dict(self.visits)
+        a.cvisits = dict(self.cvisits)
         a.subst = self.subst
         return a
 
@@ -451,6 +453,8 @@ class Evaluator:
         if "promoted" in c:
             return self.eval_promoted(st, act, c["promoted"], c.get("promoted_of"))
         v = c.get("val")
+        if c.get("unevaluated") in ("core::time::Duration::ZERO",):
+            return ("app", "duration_ms", (mk_int(0, "u64"),))      # std: Duration::ZERO is a zero-length duration
         if c.get("unevaluated_path") and ty["k"] == "adt" and (v is None or v["k"] in ("indirect", "ptr")):
             r = self.eval_const_item(c["unevaluated_path"])
             if r is not None:
@@ -884,6 +888,30 @@ class Evaluator:
             return [Path("panic", None, st, k)]
         raise Unsupported("terminator %s at %s" % (t.get("s", k), w))
 
+    def concrete_loop(self, st, act, h):
+        t = act.body["blocks"][h]["term"]
+        if t["t"] != "call" or len(t["args"]) != 1:
+            return False
+        try:
+            f = self.operand(st, act, t["func"])
+            if f[0] != "fn":
+                return False
+            fj = self.fnrefs[f[1]]
+            if (fj.get("item") or (fj.get("resolved") or fj)["name"].split("::")[-1]) != "next":
+                return False
+            a = self.operand(st, act, t["args"][0])
+            if a[0] != "ref":
+                return False
+            from models import concrete_step
+
+            class _CI:
+                pass
+            c = _CI()
+            c.ev, c.st = self, st
+            return concrete_step(c, self.load(st, a[1])) is not None
+        except (Unsupported, Infeasible, KeyError):
+            return False
+
     def arrive_loop_header(self, st, act):
         h = act.block
         fr = st.frames[act.fid]
@@ -892,6 +920,13 @@ class Evaluator:
         def wname(kind, key):
             return ("sym", "loop@bb%d:%s:%s" % (h, kind, key), "?")
 
+        if self.concrete_loop(st, act, h):
+            # `for` over an iterator of known small length: executed iteration by iteration (models.concrete_step)
+            n = act.cvisits.get(h, 0) + 1
+            act.cvisits[h] = n
+            if n > 600:
+                raise Unsupported("loop at bb%d of %s: more than 600 concrete iterations" % (h, act.fn["name"]))
+            return None
         if snap is None:
             act.visits[h] = (dict(fr), dict(st.heap), 1, len(act.visits))
             return None
@@ -903,6 +938,13 @@ class Evaluator:
         widened = []
         for l, v in list(fr.items()):
             if l in old_fr and old_fr[l] != v:
+                sm = seq_summary(old_fr[l], v)
+                if sm is not None:
+                    # a vector that grows by the same group of pushes in every iteration: prefix ++ (group)*
+                    if sm != old_fr[l]:
+                        changed = True
+                    fr[l] = sm
+                    continue
                 wv = wname("local", "_%d" % l)
                 if v != wv:
                     fr[l] = wv
@@ -1224,6 +1266,19 @@ class Evaluator:
                     self.store(st, a[1], hv, w)
         return self.finish_call(st, act, dest, target, rv, w)
 
+    def apply_multi(self, ci, st, res):
+        """('multi', [(closure-outcome state, kind, value)]): one continuation per outcome of a closure the model ran"""
+        from models import adopt_state
+        out = []
+        for ps, kind, val in res[1]:
+            s3 = st.fork()
+            adopt_state(s3, ps)
+            if kind == "panic":
+                out.append(Path("panic", None, s3, val))
+            else:
+                out.extend(self.finish_call(s3, s3.stack[-1], ci.dest, ci.target, val, ci.w))
+        return out
+
     def apply_results(self, ci, res):
         """res: term | ('fork', [(assumptions, term)]) | ('paths', list) | ('panic', why)"""
         st, act = ci.st, ci.act
@@ -1245,6 +1300,9 @@ class Evaluator:
                     val = val(CallInfo(self, s2, a2, ci.fnj, ci.name, ci.args, ci.dest, ci.target, ci.w))
                     if val is None:
                         raise Unsupported("closure in %s could not be evaluated on a branch" % ci.name)
+                    if isinstance(val, tuple) and val and val[0] == "multi":
+                        out.extend(self.apply_multi(ci, s2, val))
+                        continue
                 if isinstance(val, tuple) and val and val[0] == "panic!":
                     s2.emit(("panic", val[1], (), ci.w))
                     out.append(Path("panic", None, s2, val[1]))
@@ -1254,6 +1312,8 @@ class Evaluator:
         if isinstance(res, tuple) and res and res[0] == "panic!":
             st.emit(("panic", res[1], (), ci.w))
             return [Path("panic", None, st, res[1])]
+        if isinstance(res, tuple) and res and res[0] == "multi":
+            return self.apply_multi(ci, st, res)
         if isinstance(res, tuple) and res and res[0] == "suspend":
             return [Path("suspended", None, st, ci)]
         if isinstance(res, tuple) and res and res[0] == "inline":
@@ -1428,10 +1488,57 @@ def len_term(v):
                 n += 1
             elif it[0] == "splice" and it[1][0] == "bytes":
                 n += len(it[1][1])
+            elif it[0] == "mapped_all" and len(v[1]) == 1 and len(it[1]) == 1 and iter_count(it[2]) is not None:
+                return iter_count(it[2])        # one push per item of an iterator that ran to exhaustion
             else:
                 return ("len", v)
         return mk_int(n, "usize")
     return ("len", v)
+
+
+def seq_summary(ov, v):
+    """Loop invariant for a push loop.  ov/v: a local's value at the previous / this arrival at the loop header.
+    First widening: v == ov ++ [elem e1..ek]  ->  ov ++ [mapped (e1..ek)], read "zero or more repetitions of the group, one per
+    iteration, the generic item terms standing for that iteration's item".  Later arrivals: the body must have appended exactly
+    the group again (inductive step under the widened state of everything else), then the value is unchanged; otherwise None
+    and the caller widens to an opaque symbol."""
+    if ov[0] != "seq" or v[0] != "seq":
+        return None
+    o, n = ov[1], v[1]
+    if len(n) <= len(o) or n[:len(o)] != o:
+        return None
+    extra = n[len(o):]
+    if not all(x[0] == "elem" for x in extra):
+        return None
+    if o and o[-1][0] == "mapped":
+        return ov if extra == o[-1][1] else None
+    its = set()
+    collect_items(extra, its)
+    return ("seq", o + (("mapped", extra, its.pop() if len(its) == 1 else None),))
+
+
+def collect_items(t, out):
+    if isinstance(t, tuple):
+        if t and t[0] == "item" and len(t) >= 2:
+            out.add(t[1])
+            return
+        for x in t:
+            collect_items(x, out)
+
+
+def iter_count(it):
+    """number of items of an iterator term, as a term (None when not known)"""
+    if it[0] != "iter":
+        return None
+    if it[1] == "chunks_exact" and it[3][0] == "int" and it[3][1] > 0:
+        return ("app", "Div", (len_term(it[2]), it[3]))
+    if it[1] == "chunks" and it[3][0] == "int" and it[3][1] > 0:
+        return ("app", "div_ceil", (len_term(it[2]), it[3]))
+    if it[1] in ("slice", "slice_mut"):
+        return len_term(it[2])
+    if it[1] in ("copied", "cloned", "enumerate", "map"):
+        return iter_count(it[2])
+    return None
 
 
 def index_term(v, i):
@@ -1508,7 +1615,7 @@ def fmt_term(t, depth=0):
     if k == "unwrap":
         return "unwrap(%s)" % f(t[1])
     if k == "seq":
-        return "seq[" + ", ".join(("%s" % f(i[1])) if i[0] == "elem" else ("*%s" % f(i[1])) if i[0] == "splice" else "fill_to(%s,%s)" % (f(i[1]), f(i[2])) for i in t[1]) + "]"
+        return "seq[" + ", ".join(("%s" % f(i[1])) if i[0] == "elem" else ("*%s" % f(i[1])) if i[0] == "splice" else ("(%s)*" % ", ".join(f(x[1]) for x in i[1])) if i[0] in ("mapped", "mapped_all") else "fill_to(%s,%s)" % (f(i[1]), f(i[2])) for i in t[1]) + "]"
     if k == "item":
         return "item(%s)" % f(t[1])
     if k == "fn":
